@@ -51,7 +51,7 @@ def sumL : List Rat → Rat
   | a :: l => a + sumL l
 
 /-- the trees in the order in which their contributions were added -/
-def permute (trees : List TreeOut) (order : List Nat) : List TreeOut :=
+def permute {α : Type} (trees : List α) (order : List Nat) : List α :=
   order.filterMap (fun i => trees[i]?)
 
 /-- `_accumulate_prediction` for every tree, in the given order: `(out[0], out[1])` -/
@@ -79,6 +79,19 @@ structure DisOut where
   ep : Rat
 deriving Repr, DecidableEq
 
+/-- tail of `_return_mean_and_std`: `mean /= n; std /= n; std = sqrt(maximum(std - mean**2, 0))` (variance returned) -/
+def finishStd (n : Rat) (out : Rat × Rat) : StdOut :=
+  let mean := out.1 / n
+  let std := out.2 / n
+  ⟨mean, rmax (std - mean * mean) 0⟩
+
+/-- tail of `_return_mean_and_std_distentangled` -/
+def finishDis (n : Rat) (out : Rat × Rat × Rat) : DisOut :=
+  let mean := out.1 / n
+  let al := out.2.1 / n
+  let ep := out.2.2 / n - mean * mean
+  ⟨mean, clamp0 al, clamp0 ep⟩
+
 /-- `predict(X)`.  `none` = no trees (`0/0`, numpy `nan`; scikit-learn never fits 0 trees). -/
 def predictMean (trees : List TreeOut) (order : List Nat) : Option Rat :=
   if trees.length = 0 then none
@@ -87,23 +100,12 @@ def predictMean (trees : List TreeOut) (order : List Nat) : Option Rat :=
 /-- `_return_mean_and_std` -/
 def predictStd (minVar : Rat) (trees : List TreeOut) (order : List Nat) : Option StdOut :=
   if trees.length = 0 then none
-  else
-    let n : Rat := (trees.length : Rat)
-    let out := accStd minVar (permute trees order)
-    let mean := out.1 / n
-    let std := out.2 / n
-    some ⟨mean, rmax (std - mean * mean) 0⟩
+  else some (finishStd (trees.length : Rat) (accStd minVar (permute trees order)))
 
 /-- `_return_mean_and_std_distentangled` -/
 def predictDis (minVar : Rat) (trees : List TreeOut) (order : List Nat) : Option DisOut :=
   if trees.length = 0 then none
-  else
-    let n : Rat := (trees.length : Rat)
-    let out := accDis minVar (permute trees order)
-    let mean := out.1 / n
-    let al := out.2.1 / n
-    let ep := out.2.2 / n - mean * mean
-    some ⟨mean, clamp0 al, clamp0 ep⟩
+  else some (finishDis (trees.length : Rat) (accDis minVar (permute trees order)))
 
 /-! ### the specification the three forms are compared against -/
 
@@ -143,5 +145,111 @@ def specAbsMean (trees : List TreeOut) : Rat :=
   sumL (trees.map (fun t => rabs t.1)) / (trees.length : Rat)
 
 def closeTo (tol scale got want : Rat) : Bool := decide (rabs (got - want) ≤ tol * scale)
+
+end DH.Forest
+
+/-! ## Extensions: blocks of trees per job, the vectorised batch of query rows, the floor, the `d` acquisitions
+
+### accumulation by blocks of trees
+
+`Parallel(n_jobs=…, require="sharedmem")` hands the trees to `n_jobs` worker threads; each
+worker adds the contribution of the trees it was given.  `blocks` lists, per worker (or per joblib
+batch), the indices of the trees it handled.  The code adds tree by tree under the lock (the flat
+fold over `blocks.flatten`, i.e. `predictStd … blocks.flatten`); a worker that first reduces its
+block locally and then adds the partial sums once is the two-level fold below.  Both are the same
+function whenever the blocks cover every tree exactly once (`C18_blocks`). -/
+
+namespace DH.Forest
+
+/-- two-level accumulation: every block is reduced on its own, the partial sums are added up -/
+def accStdBlocks (minVar : Rat) (blocks : List (List TreeOut)) : Rat × Rat :=
+  blocks.foldl (fun out b => (out.1 + (accStd minVar b).1, out.2 + (accStd minVar b).2)) (0, 0)
+
+def accDisBlocks (minVar : Rat) (blocks : List (List TreeOut)) : Rat × Rat × Rat :=
+  blocks.foldl (fun out b => (out.1 + (accDis minVar b).1, out.2.1 + (accDis minVar b).2.1,
+    out.2.2 + (accDis minVar b).2.2)) (0, 0, 0)
+
+def accMeanBlocks (blocks : List (List TreeOut)) : Rat :=
+  blocks.foldl (fun out b => out + accMean b) 0
+
+def predictMeanBlocks (trees : List TreeOut) (blocks : List (List Nat)) : Option Rat :=
+  if trees.length = 0 then none
+  else some (accMeanBlocks (blocks.map (permute trees)) / (trees.length : Rat))
+
+def predictStdBlocks (minVar : Rat) (trees : List TreeOut) (blocks : List (List Nat)) : Option StdOut :=
+  if trees.length = 0 then none
+  else some (finishStd (trees.length : Rat) (accStdBlocks minVar (blocks.map (permute trees))))
+
+def predictDisBlocks (minVar : Rat) (trees : List TreeOut) (blocks : List (List Nat)) : Option DisOut :=
+  if trees.length = 0 then none
+  else some (finishDis (trees.length : Rat) (accDisBlocks minVar (blocks.map (permute trees))))
+
+/-! ### the vectorised batch
+
+The code handles all query rows at once: a tree contributes the vectors `tree.predict(X)` and
+`impurity[tree.apply(X)]` (one entry per row of `X`), the accumulators are
+`np.zeros((n_outputs, len(X)))` and `+=`, `/=`, `maximum`, `sqrt` act element by element.
+`TreeRows` is one tree's output at every row.  `C18_batch` proves that row `j` of the batch result
+is the single-point model applied to column `j` — what the single-point theorems are then about. -/
+
+/-- what one fitted tree returns for a batch: `(mean_t[j], var_t[j])` for every query row `j` -/
+abbrev TreeRows := List TreeOut
+
+/-- element-wise `a + b` of two vectors (numpy `+=` on arrays of equal shape) -/
+def vadd (a b : List Rat) : List Rat := List.zipWith (· + ·) a b
+
+/-- `out = zeros(nrows); for tree in ts: out += g(tree)` — one accumulator array -/
+def accVec (g : TreeOut → Rat) (nrows : Nat) (ts : List TreeRows) : List Rat :=
+  ts.foldl (fun out t => vadd out (t.map g)) (List.replicate nrows 0)
+
+/-- column `j` of the batch: what every tree says about query row `j` -/
+def col (j : Nat) (trees : List TreeRows) : List TreeOut := trees.filterMap (·[j]?)
+
+def predictMeanBatch (nrows : Nat) (trees : List TreeRows) (order : List Nat) : Option (List Rat) :=
+  if trees.length = 0 then none
+  else some ((accVec (·.1) nrows (permute trees order)).map (· / (trees.length : Rat)))
+
+/-- `_return_mean_and_std` on the whole batch -/
+def predictStdBatch (minVar : Rat) (nrows : Nat) (trees : List TreeRows) (order : List Nat) :
+    Option (List StdOut) :=
+  if trees.length = 0 then none
+  else
+    let ts := permute trees order
+    some (List.zipWith (fun a b => finishStd (trees.length : Rat) (a, b))
+      (accVec (·.1) nrows ts) (accVec (fun t => rmax t.2 minVar + t.1 * t.1) nrows ts))
+
+/-- `_return_mean_and_std_distentangled` on the whole batch -/
+def predictDisBatch (minVar : Rat) (nrows : Nat) (trees : List TreeRows) (order : List Nat) :
+    Option (List DisOut) :=
+  if trees.length = 0 then none
+  else
+    let ts := permute trees order
+    some (List.zipWith (fun a bc => finishDis (trees.length : Rat) (a, bc.1, bc.2))
+      (accVec (·.1) nrows ts)
+      (List.zip (accVec (fun t => rmax t.2 minVar) nrows ts) (accVec (fun t => t.1 * t.1) nrows ts)))
+
+/-! ### which moments the acquisition functions read (`acquisition.py`)
+
+`gaussian_lcb / gaussian_ei / gaussian_pi / gaussian_mes(…, deterministic)`: the plain variants
+call `model.predict(X, return_std=True)`, the `d` variants (`LCBd`, `EId`, `PId`, `MESd`) call
+`_predict_epistemic_std`, which asks for the disentangled prediction **when the surrogate's
+`predict` has a `disentangled_std` parameter** (`hasDis`; both forests do) and keeps the third
+value, and falls back to the plain prediction otherwise.  Variances (squares of the stds) again. -/
+
+/-- `(mu, std²)` handed to the acquisition formula -/
+def acqMoments (deterministic hasDis : Bool) (minVar : Rat) (trees : List TreeOut) (order : List Nat) :
+    Option (Rat × Rat) :=
+  if deterministic && hasDis then (predictDis minVar trees order).map (fun d => (d.mean, d.ep))
+  else (predictStd minVar trees order).map (fun s => (s.mean, s.var))
+
+/-- `gaussian_lcb` without gradient: `kappa = none` is `kappa == "inf"` (pure exploration, `-std`);
+`root` stands for the square root (the model keeps variances) -/
+def lcb (root : Rat → Rat) (kappa : Option Rat) (m : Rat × Rat) : Rat :=
+  match kappa with
+  | none => - root m.2
+  | some k => m.1 - k * root m.2
+
+/-- the average of the raw (unfloored) leaf variances — to state where the floor sits -/
+def rawAl (trees : List TreeOut) : Rat := sumL (trees.map (·.2)) / (trees.length : Rat)
 
 end DH.Forest
